@@ -15,7 +15,11 @@ RULE = ("Same descriptor space as C01 (per-component exhaustive pools, the numbe
         "the same bytes; a disagreement is a machinery failure.  Finally the library's reader must open the file.  "
         "TLC also checks on every descriptor that the document the contract demands (Codec!AbstractDoc) is accepted "
         "by the schema automaton.  distinct_nontrivial = distinct (descriptor, d).")
-ASSUMPTIONS = ["near twins: number tokens with a Codec!NearPairs partner (closer than 1e-10 or differing by the sign of zero, other "
+ASSUMPTIONS = ["edit \"retry\" of the writer-reuse route: write#1 goes to a path in a directory that does not exist (failed write, any "
+               "exception), the directory is created, write#2 of the SAME writer (write_to_file / write_scenario_to_file) is read back",
+               "protobuf only: traffic lights with an EMPTY cycle and without cycle (identified with an empty cycle, offset 0) x "
+               "direction x active (set through the setter, the constructor switches such a light off)",
+               "near twins: number tokens with a Codec!NearPairs partner (closer than 1e-10 or differing by the sign of zero, other "
                "doubles) put near-equal shapes of one kind into one scenario in both orders (occupancies, obstacle vs prediction / "
                "region shape, group members, two obstacles, two goal states); route \"twin\" writes the near twin of the whole "
                "scenario first with another writer object (sig suffix @reused-twin); closeness is decided on the exact float bits",
